@@ -34,6 +34,9 @@ open Evo
 (never produced from an evo run) -/
 inductive RunErr where
   | filter | traj | sync | geometry | metrics | lie | badParams
+  /-- numpy `ValueError` of `get_all_statistics` on an empty error array (evo_rpe, ratio relation with
+  every reference distance zero): evo does not store a result -/
+  | valueError
 deriving DecidableEq, Repr
 
 /-- stamp, pose, index of the pose in the input file -/
@@ -268,6 +271,7 @@ def rpeRun (o : RpeOpts) (P : Params) (ref est : Traj) : Except RunErr RpeRunRes
         (liftMetric (rpe o.common.rel pairs g.1 g.2)).bind fun res =>
           (unitStep o.common.rel o.common.changeUnit).bind fun u =>
             let kept := keptPairs o.common.rel g.1 pairs
+            if res.values.isEmpty then .error .valueError else
             .ok ⟨res.values, u, res.deltaIds, kept.map (pickPair (idsOf sel.1)), kept.map (pickPair (idsOf sel.2)),
                  reduceIds (stampsOf sel.2) res.deltaIds⟩
 
@@ -359,7 +363,7 @@ def readParams (l : List String) : Option (Params × List String) :=
 def showErr : RunErr → String
   | .filter => "E:FilterException" | .traj => "E:TrajectoryException" | .sync => "E:SyncException"
   | .geometry => "E:GeometryException" | .metrics => "E:MetricsException" | .lie => "E:LieAlgebraException"
-  | .badParams => "E:BAD-PARAMS"
+  | .badParams => "E:BAD-PARAMS" | .valueError => "E:ValueError"
 
 def showUnit : Option UnitName → String
   | none => "-" | some u => u.toString
